@@ -65,8 +65,8 @@ def script_of(path):
     return [e['act'] for e in path]
 
 
-def byte_name(i):
-    return (i * 37 + 11) % 251
+def byte_name(i, epoch=0):
+    return (i * 37 + 11 + 97 * epoch) % 251          # what the peer says differs from connection to connection
 
 
 def peer_read(peer, k, timeout=5.0):
@@ -95,6 +95,7 @@ def drive_sync(script, timeout_s=0.05):
     written = 0
     delivered = 0
     oob_sent = False
+    epoch = 0
     try:
         for a in script:
             op = a['op']
@@ -104,6 +105,7 @@ def drive_sync(script, timeout_s=0.05):
                     t.connect(timeout_s)
                     L.accept()
                     written = delivered = 0
+                    epoch += 1
                     oob_sent = False
                     tr.append(dict(op='connect', ok=True))
                 elif op == 'close':
@@ -111,7 +113,7 @@ def drive_sync(script, timeout_s=0.05):
                     t.close()              # idempotent
                     tr.append(dict(op='close', ok=True))
                 elif op == 'pw':
-                    data = bytes(byte_name(written + i + 1) for i in range(a['m']))
+                    data = bytes(byte_name(written + i + 1, epoch) for i in range(a['m']))
                     tr.append(dict(op='pw', m=a['m']))
                     L.peer.sendall(data)
                     written += a['m']
@@ -135,7 +137,7 @@ def drive_sync(script, timeout_s=0.05):
                     tr.append(dict(op='rst'))
                 elif op == 'dread':
                     # a read without a timeout blocks until the peer says something - however long that takes
-                    data = bytes(byte_name(written + i + 1) for i in range(a['m']))
+                    data = bytes(byte_name(written + i + 1, epoch) for i in range(a['m']))
                     import threading
                     tm = threading.Timer(a['delay'], lambda: L.peer.sendall(data))
                     tm.start()
@@ -143,7 +145,7 @@ def drive_sync(script, timeout_s=0.05):
                         got = t.bulk_read(a['n'], None)
                         tr.append(dict(op='pw', m=a['m']))
                         written += a['m']
-                        ok = [byte_name(delivered + i + 1) for i in range(len(got))] == list(got)
+                        ok = [byte_name(delivered + i + 1, epoch) for i in range(len(got))] == list(got)
                         tr.append(dict(op='read', n=a['n'], k=len(got), first=delivered + 1, contiguous=bool(ok)))
                         delivered += len(got)
                     except Exception as x:  # noqa
@@ -164,7 +166,7 @@ def drive_sync(script, timeout_s=0.05):
                     try:
                         tmo = 0 if a.get('poll') else timeout_s
                         got = t.bulk_read(a['n'], tmo)
-                        ok = [byte_name(delivered + i + 1) for i in range(len(got))] == list(got)
+                        ok = [byte_name(delivered + i + 1, epoch) for i in range(len(got))] == list(got)
                         tr.append(dict(op='read', n=a['n'], k=len(got), first=delivered + 1, contiguous=bool(ok)))
                         delivered += len(got)
                     except TcpTimeoutException:
@@ -193,6 +195,7 @@ def drive_async(script, timeout_s=0.05):
         tr = []
         written = delivered = 0
         oob_sent = False
+        epoch = 0
         try:
             for a in script:
                 op = a['op']
@@ -202,6 +205,7 @@ def drive_async(script, timeout_s=0.05):
                         await t.connect(timeout_s)
                         L.accept()
                         written = delivered = 0
+                        epoch += 1
                         oob_sent = False
                         tr.append(dict(op='connect', ok=True))
                     elif op == 'close':
@@ -209,7 +213,7 @@ def drive_async(script, timeout_s=0.05):
                         await t.close()
                         tr.append(dict(op='close', ok=True))
                     elif op == 'pw':
-                        data = bytes(byte_name(written + i + 1) for i in range(a['m']))
+                        data = bytes(byte_name(written + i + 1, epoch) for i in range(a['m']))
                         tr.append(dict(op='pw', m=a['m']))
                         L.peer.sendall(data)
                         written += a['m']
@@ -232,13 +236,13 @@ def drive_async(script, timeout_s=0.05):
                                 pass
                         tr.append(dict(op='rst'))
                     elif op == 'dread':
-                        data = bytes(byte_name(written + i + 1) for i in range(a['m']))
+                        data = bytes(byte_name(written + i + 1, epoch) for i in range(a['m']))
                         asyncio.get_running_loop().call_later(a['delay'], lambda: L.peer.sendall(data))
                         try:
                             got = await t.bulk_read(a['n'], None)
                             tr.append(dict(op='pw', m=a['m']))
                             written += a['m']
-                            ok = [byte_name(delivered + i + 1) for i in range(len(got))] == list(got)
+                            ok = [byte_name(delivered + i + 1, epoch) for i in range(len(got))] == list(got)
                             tr.append(dict(op='read', n=a['n'], k=len(got), first=delivered + 1, contiguous=bool(ok)))
                             delivered += len(got)
                         except Exception as x:  # noqa
@@ -267,7 +271,7 @@ def drive_async(script, timeout_s=0.05):
                         try:
                             tmo = 0 if a.get('poll') else timeout_s
                             got = await t.bulk_read(a['n'], tmo)
-                            ok = [byte_name(delivered + i + 1) for i in range(len(got))] == list(got)
+                            ok = [byte_name(delivered + i + 1, epoch) for i in range(len(got))] == list(got)
                             tr.append(dict(op='read', n=a['n'], k=len(got), first=delivered + 1, contiguous=bool(ok)))
                             delivered += len(got)
                         except TcpTimeoutException:
